@@ -58,8 +58,11 @@ def run_history(ctx: Ctx, mats, m, k, hist, max_norm):
     """hist: tuple of matrix indices or 'r' (reset)"""
     rp = {"n_tasks": m, "update_weights_every": k, "max_norm": max_norm, "history": list(hist),
           "matrices": [M.tolist() for M in mats]}
-    main = NashMTL(n_tasks=m, max_norm=max_norm, update_weights_every=k)
-    plain = NashMTL(n_tasks=m, max_norm=0.0, update_weights_every=k)         # same schedule, rescaling disabled
+    niter = {0: 20, 1: 20, 2: 20, 3: 3, 4: 0}[(len(hist) + k + m) % 5]        # optim_niter: default mostly, also 3 and 0
+    ctx.count("optim_niter", niter)
+    rp["optim_niter"] = niter
+    main = NashMTL(n_tasks=m, max_norm=max_norm, update_weights_every=k, optim_niter=niter)
+    plain = NashMTL(n_tasks=m, max_norm=0.0, update_weights_every=k, optim_niter=niter)   # same schedule, rescaling disabled
     shadow = None            # fresh instance started at the last reset
     rep = ctx.driver.ask(["nash", ["k", k], ["m", m], ["ops", *[("reset" if h == "r" else ["call", h]) for h in hist]]])
     outs, plains = [], []
@@ -70,7 +73,7 @@ def run_history(ctx: Ctx, mats, m, k, hist, max_norm):
         if h == "r":
             main.reset()
             plain.reset()
-            shadow = NashMTL(n_tasks=m, max_norm=max_norm, update_weights_every=k)
+            shadow = NashMTL(n_tasks=m, max_norm=max_norm, update_weights_every=k, optim_niter=niter)
             seg += 1
             continue
         J = mats[h]
@@ -125,7 +128,7 @@ def run_history(ctx: Ctx, mats, m, k, hist, max_norm):
         else:
             first[sym] = i
     # (iii) ... and the recomputations see exactly the matrices at calls 0, k, 2k, ... : sub-sampled twin with k = 1
-    twin = NashMTL(n_tasks=m, max_norm=0.0, update_weights_every=1)
+    twin = NashMTL(n_tasks=m, max_norm=0.0, update_weights_every=1, optim_niter=niter)
     cur_seg = 0
     for i, (sym, wp, invoked, sg, h) in enumerate(plains):
         if sg != cur_seg:
